@@ -800,6 +800,12 @@ class TunnelCommunity(Community):
             return False
         return True
 
+    def _circuit_id_in_use(self, circuit_id: int) -> bool:
+        """
+        Whether we already route anything (as originator, relay or exit) under the given circuit id.
+        """
+        return circuit_id in self.circuits or circuit_id in self.relay_from_to or circuit_id in self.exit_sockets
+
     def join_circuit(self, create_payload: CreatePayload, previous_node_address: Address) -> None:
         """
         Actively join a circuit and send a created message back.
@@ -842,9 +848,13 @@ class TunnelCommunity(Community):
         if self.request_cache.has(CreatedRequestCache, payload.circuit_id):
             self.logger.warning("Already have a request for circuit %d", payload.circuit_id)
             return
+        if self._circuit_id_in_use(payload.circuit_id):
+            self.logger.warning("Ignoring create for circuit %d, this circuit id is already in use", payload.circuit_id)
+            return
 
         result = await self.should_join_circuit(payload, source_address)
-        if result:
+        # Deciding whether to join may have yielded to other create requests: check again before claiming the id.
+        if result and not self._circuit_id_in_use(payload.circuit_id):
             self.join_circuit(payload, source_address)
         else:
             self.logger.warning("We're not joining circuit with ID %s", payload.circuit_id)
